@@ -9,7 +9,7 @@ from symv.dense import describe, embed, embed_vec, is_array, is_vector, snapshot
 
 META = {
     "level": "exploration",
-    "level_text": "Every monitored call of a structural / arithmetic op on an abelian array, and of every arithmetic op and exported elementwise function on a block vector, in each available call form (method or operator, symmray function, autoray dispatch), is compared with the numpy operation on the independently densified operands (exact on integer data). A returned value that differs is a violation, a clean refusal (ValueError/TypeError/NotImplementedError) is not, an internal error or RecursionError is; forms must agree with each other. Seeded random exploration over 5 symmetries, real/complex, operands with different stored sectors.",
+    "level_text": "Every monitored call of a structural / arithmetic op on an abelian array, and of every arithmetic op and exported elementwise function on a block vector, in each available call form (method or operator, symmray function, autoray dispatch), is compared with the numpy operation on the independently densified operands (exact on integer data). A returned value that differs is a violation, a clean refusal (ValueError/TypeError/NotImplementedError) is not, an internal error or RecursionError is; forms must agree with each other. Seeded random exploration over 5 symmetries, real/complex, operands with different stored sectors. Later additions: every array result audited against its own indices, subjects with a history, in-place binary operators with a reordered partner, sums of arrays whose legs list different charges, several axes at once for expand_dims, empty squeeze selections, vector in-place operators, all / any, one-sided and zero clip bounds.",
     "technique": "runtime monitoring: differential oracle (numpy on densified operands) + cross-form agreement",
     "rule": (
         "one evaluation = one (op, call form) invocation compared with numpy on the harness-densified operands. Ops: transpose, conj, dagger/H/T, squeeze, expand_dims, x*s, s*x, x/s, -x, "
